@@ -21,7 +21,7 @@ CONSTANTS Classes,     \* request classes of the pool (strings)
           Amps,        \* amplifiers of the designed network
           Oms,         \* optical multiplex sections
           Design,      \* [Amps -> [gain, pmax]]  what the design step produced
-          Req,         \* [Classes -> [path, rpath, oms, load, mode, slot, noRoute, bidir, bw, type]]  (see MC_Planning)
+          Req,         \* [Classes -> [short, rshort, include, hop, via, rvia, oms, load, mode, modes, slot, bidir, bw, type]]  (see MC_Planning)
           ModeTable,   \* sequence of [name, thr] explored in this order by the automatic selection
           NSlots,      \* slot indices 0..NSlots-1 on every OMS
           Leaky        \* FALSE: the property's mechanism (private copy); TRUE: the defect
@@ -29,7 +29,7 @@ CONSTANTS Classes,     \* request classes of the pool (strings)
 VARIABLES settings, live, occ, done, result, response
 vars == <<settings, live, occ, done, result, response>>
 
-NoResult == [reason |-> "none", route |-> <<>>, mode |-> "", gsnr |-> NONE, gsnrRev |-> NONE, nm |-> <<>>]
+NoResult == [reason |-> "none", raised |-> <<>>, route |-> <<>>, mode |-> "", gsnr |-> NONE, gsnrRev |-> NONE, nm |-> <<>>]
 Slots    == 0..(NSlots - 1)
 
 -----------------------------------------------------------------------------
@@ -45,14 +45,24 @@ Walk(d, st, path, k, p) ==
          IN [st |-> nx.st, deficit |-> nx.deficit + (d[a].gain - eff)]
 Gsnr(path, deficit) == 30000000 - 1500000 * Len(path) - 1000000 * deficit          \* micro-dB, abstract
 
-(* Judge: forced mode -> MODE_NOT_FEASIBLE below its threshold; automatic -> first mode of the table that passes,     *)
-(* else NO_FEASIBLE_MODE with the last explored one.                                                                 *)
+(* Route: the include-node constraint of the request.  r.via is the route through the nodes to include (<<>> when    *)
+(* no route crosses them in order); r.short is the unconstrained shortest route between the same ends.  A STRICT      *)
+(* constraint that cannot be honoured blocks the request, a LOOSE one is dropped - whatever other requests with the   *)
+(* same ends and the same include list asked for.                                                                     *)
+Route(r) == IF r.include = <<>> THEN r.short
+            ELSE IF r.via # <<>> THEN r.via
+            ELSE IF r.hop = "LOOSE" THEN r.short ELSE <<>>
+
+(* Judge: forced mode -> MODE_NOT_FEASIBLE below its threshold; automatic -> first mode of the transponder type        *)
+(* (explored in table order) that passes, else NO_FEASIBLE_MODE with the last explored one.                           *)
 ModeIdx(name) == CHOOSE i \in 1..Len(ModeTable) : ModeTable[i].name = name
-Passing(g)  == {i \in 1..Len(ModeTable) : g >= ModeTable[i].thr}
+ThrOf(name)   == ModeTable[ModeIdx(name)].thr
+Explored(r)   == {i \in 1..Len(ModeTable) : ModeTable[i].name \in r.modes}
+Passing(r, g) == {i \in Explored(r) : g >= ModeTable[i].thr}
 Judge(r, g) ==
-    IF r.mode # "" THEN [mode |-> r.mode, reason |-> IF g >= ModeTable[ModeIdx(r.mode)].thr THEN "" ELSE "MODE_NOT_FEASIBLE"]
-    ELSE IF Passing(g) # {} THEN [mode |-> ModeTable[SetMin(Passing(g))].name, reason |-> ""]
-    ELSE [mode |-> ModeTable[Len(ModeTable)].name, reason |-> "NO_FEASIBLE_MODE"]
+    IF r.mode # "" THEN [mode |-> r.mode, reason |-> IF g >= ThrOf(r.mode) THEN "" ELSE "MODE_NOT_FEASIBLE"]
+    ELSE IF Passing(r, g) # {} THEN [mode |-> ModeTable[SetMin(Passing(r, g))].name, reason |-> ""]
+    ELSE [mode |-> ModeTable[SetMax(Explored(r))].name, reason |-> "NO_FEASIBLE_MODE"]
 
 (* Assign: a fixed slot is taken as given or the request is blocked; a free one is placed first-fit.                 *)
 Range(n, m)   == n..(n + m - 1)
@@ -64,22 +74,31 @@ Assign(oc, r) ==
          IN IF cand = {} THEN <<>> ELSE <<SetMin(cand), r.slot.m>>
 
 (* The whole computation for request class c from element gains `st`, design d and occupancy oc.                     *)
+(* `raised` lists the blocking reasons in the order the stages raise them (route, forward judgement, reverse          *)
+(* judgement with the retained mode, spectrum - the last one only attempted for a request not yet blocked);           *)
+(* the request CARRIES THE FIRST ONE: a later stage never rewrites the reason of a request that is already blocked.   *)
+First(raised) == IF raised = <<>> THEN "" ELSE raised[1]
 Compute(d, st, oc, c) ==
-    LET r == Req[c] IN
-    IF r.path = <<>> THEN [res |-> [reason |-> r.noRoute, route |-> <<>>, mode |-> r.mode, gsnr |-> NONE,
-                                    gsnrRev |-> NONE, nm |-> <<>>], st |-> st, oc |-> oc]
-    ELSE LET w   == Walk(d, st, r.path, 1, r.load)
-             g   == Gsnr(r.path, w.deficit)
+    LET r == Req[c]  path == Route(r) IN
+    IF path = <<>> THEN [res |-> [reason |-> "NO_PATH_WITH_CONSTRAINT", raised |-> <<"NO_PATH_WITH_CONSTRAINT">>,
+                                  route |-> <<>>, mode |-> r.mode, gsnr |-> NONE, gsnrRev |-> NONE, nm |-> <<>>],
+                         st |-> st, oc |-> oc]
+    ELSE LET rpath == IF path = r.via THEN r.rvia ELSE r.rshort
+             w   == Walk(d, st, path, 1, r.load)
+             g   == Gsnr(path, w.deficit)
              j   == Judge(r, g)
-             w2  == IF r.bidir /\ j.reason \notin NoPathFamily           \* the reverse direction: its own amplifiers
-                    THEN Walk(d, w.st, r.rpath, 1, r.load) ELSE [st |-> w.st, deficit |-> 0]
-             g2  == IF r.bidir THEN Gsnr(r.rpath, w2.deficit) ELSE NONE
-             nm  == IF j.reason = "" THEN Assign(oc, r) ELSE <<>>
-             rsn == IF j.reason # "" THEN j.reason ELSE IF nm = <<>> THEN "NO_SPECTRUM" ELSE ""
-         IN [res |-> [reason |-> rsn, route |-> r.path, mode |-> j.mode, gsnr |-> g, gsnrRev |-> g2,
-                      nm |-> IF nm = <<>> THEN <<>> ELSE <<nm>>],
+             w2  == IF r.bidir THEN Walk(d, w.st, rpath, 1, r.load)      \* the reverse direction: its own amplifiers
+                    ELSE [st |-> w.st, deficit |-> 0]
+             g2  == IF r.bidir THEN Gsnr(rpath, w2.deficit) - 100000 ELSE NONE
+             fwd == IF j.reason # "" THEN <<j.reason>> ELSE <<>>
+             rev == IF r.bidir /\ g2 < ThrOf(j.mode) THEN <<"MODE_NOT_FEASIBLE">> ELSE <<>>
+             nm  == IF fwd \o rev = <<>> THEN Assign(oc, r) ELSE <<>>
+             spc == IF fwd \o rev = <<>> /\ nm = <<>> THEN <<"NO_SPECTRUM">> ELSE <<>>
+             raised == fwd \o rev \o spc
+         IN [res |-> [reason |-> First(raised), raised |-> raised, route |-> path, mode |-> j.mode, gsnr |-> g,
+                      gsnrRev |-> g2, nm |-> IF nm = <<>> THEN <<>> ELSE <<nm>>],
              st |-> w2.st,
-             oc |-> IF rsn = "" THEN [o \in Oms |-> IF o \in r.oms THEN oc[o] \cup Range(nm[1], nm[2]) ELSE oc[o]]
+             oc |-> IF raised = <<>> THEN [o \in Oms |-> IF o \in r.oms THEN oc[o] \cup Range(nm[1], nm[2]) ELSE oc[o]]
                     ELSE oc]
 
 DesignGains(d) == [a \in Amps |-> d[a].gain]
@@ -109,7 +128,7 @@ RxOf(g) == [k \in MetricKeys |-> IF k \in {"pdl", "cd", "pmd"} THEN NONE
                                  ELSE IF g = NONE THEN NONE ELSE g - (IF k = "snrmin" THEN 40000 ELSE 0)]
 OutcomeOf(c) ==
     LET r == Req[c]  res == result[c] IN
-    [members |-> <<[id |-> c, bw |-> r.bw, key |-> c, bidir |-> r.bidir]>>, reason |-> res.reason,
+    [members |-> <<[id |-> c, bw |-> r.bw, key |-> c, bidir |-> r.bidir]>>, reason |-> res.reason, raised |-> res.raised,
      route |-> IF res.route = <<>> THEN <<>> ELSE <<"trx src">> \o res.route \o <<"trx dst">>,
      type |-> r.type, mode |-> res.mode, nm |-> res.nm, bidir |-> r.bidir, hasRev |-> r.bidir /\ res.route # <<>>,
      rx |-> RxOf(res.gsnr), rxRev |-> RxOf(res.gsnrRev), power |-> 1000000, powerudbm |-> 0,
@@ -138,6 +157,12 @@ OnlySlotsDependOnHistory ==     \* a result differs from the solo result only in
         result[c] # Solo(c) =>
             /\ Core(result[c]) = Core(Solo(c))
             /\ \E j \in 1..(i - 1) : result[done[j]].reason = "" /\ Req[done[j]].oms \cap Req[c].oms # {}
+
+CarriesFirstReason ==           \* the feasibility verdict a request carries is the first reason raised for it, and a
+    \A i \in 1..Len(done) :     \* STRICT include constraint that cannot be honoured is never answered with a route
+        LET c == done[i] IN
+        /\ result[c].reason = First(result[c].raised)
+        /\ (Req[c].include # <<>> /\ Req[c].via = <<>> /\ Req[c].hop = "STRICT") => result[c].route = <<>>
 
 BlockedHoldsNoSpectrum ==       \* a blocked request has no labels and occupies nothing (C14 /\ C19)
     /\ \A i \in 1..Len(done) : result[done[i]].reason # "" => result[done[i]].nm = <<>>
